@@ -377,6 +377,10 @@ func hostile(w *world, endpoint string, classIdx int, r *rand.Rand, thorough boo
 			a.Transport = "held-cancel"
 		case x == 4:
 			a.Transport = "length-lie"
+		case x == 5 || x == 6:
+			// the provider accepts the request and never answers: the helper's own deadline (the per-request
+			// time-out of the device polling helper, otherwise the short deadline of the call's context) ends it
+			a.Transport = "held-deadline"
 		}
 		a.Sticky = r.IntN(2) == 0
 	}
